@@ -1,5 +1,6 @@
 """C04 HLL union (DESIGN.md section 5 C04; A6)."""
 import hll_rules as H
+import generic_lints
 
 
 def run(facts, tier):
@@ -13,6 +14,7 @@ def run(facts, tier):
         ("reset agreement", H.union_reset, 1, "reset() rebuilds the gadget with the constructor's parameters"),
         ("merge loops", H.merge_loops, 6, "every merge loop folds every source slot with max, no conditional skip"),
         ("register stores", H.register_stores, 10, "every register store is a max"),
+        ("duplicate operands", lambda fa: generic_lints.duplicate_conjuncts(fa, ('hll/',)), 2, "no logical chain tests the same operand twice (copy-paste of the wrong peer)"),
     ):
         o = f(facts)
         obs += o
